@@ -1,6 +1,7 @@
 import RavenModel.Model.Plan
 import RavenModel.Model.MailInv
 import RavenModel.Model.MailMono
+import RavenModel.Model.MailValidity
 /-! # C03 — UIDs are unique, ascending and never reused; UIDNEXT tells the truth
 
 Property theorems only; the machine is `Model/Mail.lean`, its invariant `Model/MailInv.lean`.
@@ -76,13 +77,19 @@ def validity_fresh_full : Prop :=
   ∀ (now : Nat) (ops₁ ops₂ : List Op), ∀ b₁ ∈ (reach now ops₁).boxes, ∀ b₂ ∈ (reach now (ops₁ ++ ops₂)).boxes,
     b₁.name = b₂.name → b₁.validity = b₂.validity → b₁.inc = b₂.inc
 
-/-- …refuted when the clock does not advance between DELETE and CREATE (finding C03-F1): -/
-theorem validity_fresh_refuted : ¬ validity_fresh_full := by
-  intro h
-  have := h 7 [.create (b!"tmp") 9] [.delete (b!"tmp"), .create (b!"tmp") 9]
-    { name := (b!"tmp"), validity := 9, uidNext := 1, links := [], inc := 5 } (by decide)
-    { name := (b!"tmp"), validity := 9, uidNext := 1, links := [], inc := 6 } (by decide) rfl rfl
-  exact absurd this (by decide)
+/-- C03.5  …proved, for every history and whatever the clock does (also when it stands still or goes back between a DELETE and
+the CREATE or RENAME that follows): since repair 090198b a store never issues a UIDVALIDITY twice — the new value is the clock
+reading or the successor of the last value issued, whichever is larger (`Store.freshValidity`) — so UIDVALIDITY alone already
+identifies the incarnation. Before the repair the value was the clock reading alone and the statement was refuted by
+`[create tmp, delete tmp, create tmp]` within one second (finding C03-F1, now closed). -/
+theorem validity_fresh : validity_fresh_full := by
+  intro now ops₁ ops₂ b₁ hb₁ b₂ hb₂ _ hv
+  exact validity_identifies_incarnation now ops₁ ops₂ b₁ hb₁ b₂ hb₂ hv
+
+-- non-vacuity: DELETE and CREATE at the same clock reading give the name another UIDVALIDITY
+example : ((reach 7 [.create (b!"tmp") 9]).boxes.map (fun b => (b.name, b.validity))).getLast? = some ((b!"tmp"), 12) ∧
+    ((reach 7 [.create (b!"tmp") 9, .delete (b!"tmp"), .create (b!"tmp") 9]).boxes.map (fun b => (b.name, b.validity))).getLast? = some ((b!"tmp"), 13) := by
+  decide
 
 /-- C03.6  UIDNEXT never goes back: however the history continues, a mailbox incarnation that is still there advertises a
 UIDNEXT at least as large as it did before (so a client that cached UIDNEXT never sees a smaller one under the same
